@@ -8,16 +8,22 @@ only="${1:-}"
 grep '^fixed:' /verif/KNOWN_FINDINGS.txt | while read -r _ prop commit rest; do
   id=${prop#property=}
   [ -n "$only" ] && [ "$only" != "$id" ] && continue
+  how="revert of fix $commit"
   if ! git revert -n "$commit" >/dev/null 2>&1; then
     git revert --abort >/dev/null 2>&1; git reset -q --hard HEAD
-    echo "| $id | revert of fix $commit | (revert conflicts with later fixes: skipped) | - |"
-    continue
+    # later fixes touch the same lines: use the hand-made reverse patch kept under seeded/R-<commit>
+    if [ -f "/verif/seeded/R-$commit/patch.diff" ] && git apply "/verif/seeded/R-$commit/patch.diff" 2>/dev/null; then
+      how="revert of fix $commit (hand-made reverse patch seeded/R-$commit: the commit no longer reverts cleanly)"
+    else
+      echo "| $id | revert of fix $commit | (revert conflicts with later fixes and no reverse patch: skipped) | - |"
+      continue
+    fi
   fi
   out=$(cd /verif && timeout 900 ./run.sh "$id" quick 2>&1); rc=$?
   sigs=$(echo "$out" | grep -o 'sig=[^ ]*' | sort -u | tr '\n' ' ')
   git revert --abort >/dev/null 2>&1; git reset -q --hard HEAD
   verdict="MISSED"; [ $rc -eq 1 ] && verdict="caught"
   [ $rc -ge 2 ] && verdict="harness-error(rc=$rc)"
-  echo "| $id | revert of fix $commit | $verdict | ${sigs:-none} |"
+  echo "| $id | $how | $verdict | ${sigs:-none} |"
 done
 git -C /repo status --porcelain | head -3
